@@ -28,7 +28,7 @@ func init() {
 }
 
 var c18Channels = []string{"news", "nest", "alpha"}
-var c18Patterns = []string{"ne*", "*", "a?pha", "{news,alpha}", "ne{ws,st}", "[an]e*", "{nest,al*}"}
+var c18Patterns = []string{"ne*", "*", "a?pha", "{news,alpha}", "ne{ws,st}", "[an]e*", "{nest,al*}", "news", "alpha"}
 
 func genC18(r *Rng, tier string, idx int) *Plan {
 	p := &Plan{Profile: "pubsub", Knobs: map[string]int64{}, SKnobs: map[string]string{}}
@@ -77,6 +77,9 @@ func genC18(r *Rng, tier string, idx int) *Plan {
 	p.Dice = drawDice(r, 256)
 	return p
 }
+
+// names that are both a channel of the universe and (literally) a pattern of it
+var literalPattern = map[string]bool{"news": true, "alpha": true}
 
 func pickSome(r *Rng, from []string, lo, hi int) []string {
 	n := r.Range(lo, hi)
@@ -244,6 +247,12 @@ func runC18(t *testing.T, p *Plan) *Outcome {
 						continue
 					}
 					cls := classifyDelivery(g, w)
+					if cls == "duplicated" && !strict && literalPattern[n] {
+						// a channel and a pattern spelled the same deliver frames under the same name: a second frame may
+						// come from the other subscription having been (re)created before the asynchronous delivery ran -
+						// the recorded asynchronous-delivery finding, not a duplicate
+						cls = "delivered-to-unsubscribed"
+					}
 					if !final && (cls == "lost" || cls == "reordered") {
 						continue // the connection was closed: messages still on their way to it are legitimately lost
 					}
@@ -540,6 +549,19 @@ func runC18(t *testing.T, p *Plan) *Outcome {
 						for c := 0; c < nsub; c++ {
 							if model[c].chans[ch] {
 								n++
+							}
+						}
+						if n == 0 && !r.IsError() && len(flat) == 2*len(c18Channels) {
+							// a name that only exists as a PATTERN subscription reports that pattern's subscribers (pinned by
+							// Test_HandleSubscribe, part of the recorded introspection finding): accepted
+							np := 0
+							for c := 0; c < nsub; c++ {
+								if model[c].pats[ch] {
+									np++
+								}
+							}
+							if np > 0 && flat[2*k+1].Text() == strconv.Itoa(np) {
+								continue
 							}
 						}
 						if stale := n + withGhosts(func(m *c18Sub) bool { return m.chans[ch] }); stale != n && !r.IsError() && len(flat) == 2*len(c18Channels) && flat[2*k+1].Text() == strconv.Itoa(stale) {
